@@ -564,6 +564,23 @@ pub fn plan(mode: &str, tier: Tier) -> Plan {
     Plan { alphabet: alphabet_full(), depth, cfgs }
 }
 
+/// All words of the plan: the full alphabet up to `depth`, plus (value SHAPES) every word one
+/// shorter that contains a set of the EMPTY value or of a value made of CR LF NUL 0xFF at least once.
+fn plan_words(p: &Plan) -> Vec<Vec<Op>> {
+    let mut words = words_upto(&p.alphabet, p.depth);
+    if p.depth >= 2 {
+        let mut wide = p.alphabet.clone();
+        let shapes = [Op::Set(0, 2), Op::Set(1, 3)];
+        wide.extend(shapes);
+        for w in words_upto(&wide, p.depth - 1) {
+            if w.iter().any(|o| shapes.contains(o)) {
+                words.push(w);
+            }
+        }
+    }
+    words
+}
+
 fn words_upto(alpha: &[Op], depth: usize) -> Vec<Vec<Op>> {
     let mut out: Vec<Vec<Op>> = vec![vec![]];
     let mut frontier: Vec<Vec<Op>> = vec![vec![]];
@@ -1120,7 +1137,7 @@ pub fn worker(job: &Job) -> Shard {
     let mode = job.pass.split(':').nth(1).unwrap_or("crash").to_string();
     let p = plan(&mode, job.tier);
     let scratch = job.scratch();
-    let words = words_upto(&p.alphabet, p.depth);
+    let words = plan_words(&p);
     let mut idx = 0usize;
     let mut first = true;
     {
@@ -1203,9 +1220,9 @@ pub fn report_meta(prop: &str, tier: Tier) -> (String, Value, Vec<String>) {
         _ => "c14",
     };
     let p = plan(mode, tier);
-    let nwords = words_upto(&p.alphabet, p.depth).len();
+    let nwords = plan_words(&p).len();
     let rule = match mode {
-        "crash" | "c14" => format!("every workload word of length 0..={} over {:?} x {} configurations is executed on the real store with every mutating system call recorded; for every crash point inside the last operation of every word (so every prefix of every history is a crash point exactly once) the directory produced by exactly that prefix of calls is rebuilt, opened by the real recovery code in a forked child (twice: a crash right after recovery's own file creation), and every key is read; a case is distinct+non-trivial when an operation is in flight at the crash point (distinct by directory fingerprint). workloads={}", p.depth, p.alphabet.iter().map(|o| o.show()).collect::<Vec<_>>(), p.cfgs.len(), nwords * p.cfgs.len()),
+        "crash" | "c14" => format!("every workload word of length 0..={} over {:?} x {} configurations is executed on the real store with every mutating system call recorded; for every crash point inside the last operation of every word (so every prefix of every history is a crash point exactly once) the directory produced by exactly that prefix of calls is rebuilt, opened by the real recovery code in a forked child (twice: a crash right after recovery's own file creation), and every key is read; (plus every word one shorter that sets the empty value or a CR LF NUL 0xFF value); a case is distinct+non-trivial when an operation is in flight at the crash point (distinct by directory fingerprint). workloads={}", p.depth, p.alphabet.iter().map(|o| o.show()).collect::<Vec<_>>(), p.cfgs.len(), nwords * p.cfgs.len()),
         "space" => format!("every workload word of length {}..{} over {:?} x {} configurations (every file eligible) with ONE failed create / write / fsync / unlink (EIO, short write) at every position, followed by two fault-free merges: the data files must then hold exactly the pairs the store reads. workloads={}", p.depth - 1, p.depth, p.alphabet.iter().map(|o| o.show()).collect::<Vec<_>>(), p.cfgs.len(), nwords * p.cfgs.len()),
         "power" => format!("as the crash enumeration, under sync=always, and for every crash point every per-file loss vector: each file independently keeps any length between its last fsync and its current length ({}); creations and removals are durable. workloads={}", if tier == Tier::Thorough { "every byte for tails up to 64 bytes, else every write boundary plus every byte of the first and last 40" } else { "the full product over files at write boundaries, plus every byte of every unsynced tail of up to 80 bytes one file at a time" }, nwords * p.cfgs.len()),
         _ => format!("every workload word of length {} (every fault position) and every shorter word (fault in its last operation) over {:?} x {} configurations; one fault per run at every individual create / write / fsync / unlink call with EIO, ENOSPC (writes, creates) and short writes; the rest of the workload runs after the fault, then the store is restarted. workloads={}", p.depth, p.alphabet.iter().map(|o| o.show()).collect::<Vec<_>>(), p.cfgs.len(), nwords * p.cfgs.len()),
